@@ -10,6 +10,7 @@ import unittest
 
 import fixtures
 import testtools
+from testtools.matchers import Equals
 from testtools import content as ttcontent
 from testtools.content_type import ContentType
 from testtools.matchers import Mismatch
@@ -405,6 +406,8 @@ class SynthBase(testtools.TestCase):
                     self.addDetail(name_str(a, b), lazy_content(env, "user:%s-%d" % (a, b)))
             elif op == "expect":
                 self.expectThat("valueé", SynthMatcher(a, env))
+            elif op == "expectok":
+                self.expectThat("valueé", Equals("valueé"))  # a matching expectation changes nothing
             elif op == "patch":
                 self.patch(env.obj, a, "patched")
             elif op == "useFixture":
